@@ -17,7 +17,7 @@ CHECKS = {
  "C03": ("model_checking", SEQ, "All sequences of length<=3/4; for every transaction after every sequence: postCommitVolumes, JSON preCommitVolumes, per-move post-commit volumes and log payloads equal the reference; re-checked after every later write (immutability).", PGSIM_NOTE, "5 Group A"),
  "C04": ("model_checking", SEQ, "All sequences of length<=3/5 over creates with past/equal/future effective timestamps (ties forced) and reverts; effective volumes per transaction and per account at PIT equal the fold in (effective timestamp, insertion order). The set_effective_volumes/update_effective_volumes triggers are executed from the migration text.", PGSIM_NOTE, "5 Group A"),
  "C05": ("model_checking", SEQ, "All sequences of length<=3/4; PIT and (OOT,PIT) reads at every recorded instant +-1us in both date modes equal the reference folds; account/transaction visibility and reverted flag at t.", PGSIM_NOTE, "5 Group A"),
- "C08": ("model_checking", SEQ, "Sequential half: all sequences of length<=3/4 over every write kind plus failing and dry-run writes; exactly one log per successful write and none otherwise, ids increasing, state rebuilt from log payloads alone equals every read. Concurrent half pending (K2).", PGSIM_NOTE, "5 Group B"),
+ "C08": ("model_checking", SEQ, "Sequential half: all sequences of length<=3/4 over every write kind plus failing and dry-run writes; exactly one log per successful write and none otherwise, ids increasing, state rebuilt from log payloads alone equals every read. Concurrent half (K2): 4 scenarios of 2-3 concurrent writers (disjoint creates, mixed kinds with a dry run, a failing writer in between, HASH_LOGS=DISABLED), every schedule with <=2 preemptions (thorough: all): one log per committed write, log ids strictly increasing along the order in which COMMITs executed, final state == replay of the committed writes. 1 known finding (HASH_LOGS != SYNC: log ids follow statement order, not commit order).", PGSIM_NOTE + "; concurrent half: Go code between two driver calls is executed atomically; commit order = order in which COMMIT calls were scheduled", "5 Group B"),
  "C15": ("model_checking", SEQ, "Sequential half: all sequences of length<=3/4 over creates and reverts (plain/forced/at effective date/dry run, reverts of reverts, second reverts): postings inverse, mark, timestamp rule, single success, no effect on failure, balances unchanged by the pair.", PGSIM_NOTE, "5 Group B"),
  "C17": ("model_checking", SEQ, "For each of the 4 metadata-history feature combinations: all sequences of length<=3/4 over every metadata write path; current metadata == last-write-wins fold; PIT reads == revision at t (SYNC) or current metadata (DISABLED).", PGSIM_NOTE, "5 Group A"),
  "C18": ("model_checking", SEQ, "All sequences of length<=3/4 over back/future-dated creates, failing creates and metadata-only accounts: listed set, firstUsage (lowered by back-dating), insertionDate immutable, PIT visibility.", PGSIM_NOTE, "5 Group A"),
